@@ -45,6 +45,7 @@ def B(name, *edits):
 CORPUS = {}
 
 CORPUS["C01"] = [
+    M("wrong trigonometric root (k = 1)", (GEO, "        v3 = 2 * np.sqrt(-q) * np.cos((psi + 4 * np.pi) / 3)", "        v3 = 2 * np.sqrt(-q) * np.cos((psi + 2 * np.pi) / 3)")),
     M("cubic coefficient 0.5*b*u4 -> b*u4", (GEO, "+ 0.5 * b * u4", "+ b * u4")),
     M("small-angle norm for the view angle", (GEO, "normThetaTrSubV = 2 / self.sinOfMaxThetaTrSubV**2",
                                               "normThetaTrSubV = 2 / config.simulation.max_cherenkov_angle**2")),
@@ -73,18 +74,20 @@ CORPUS["C02"] = [
     M("pathLens unmasked", (GEO, "        return self.losPathLen[self.event_mask]", "        return self.losPathLen")),
     M("valid_latS_rad without radians", (GEO, "        return np.radians(self.valid_latS())", "        return self.valid_latS()")),
     M("costhetaTrSubN > 0", (GEO, "self.costhetaTrSubN >= 0, self.betaTrSubN < 42", "self.costhetaTrSubN > 0, self.betaTrSubN < 42")),
-    M("root mask weakened", (GEO, "v1_msk = (v1 > 0) & (v1 >= self.minLOSpathLen)", "v1_msk = (v1 > 0) & (v1 > 0.5 * self.minLOSpathLen)")),
+    M("path length no longer kept inside [minLOS, maxLOS]", (GEO, "        self.losPathLen = np.clip(v3, self.minLOSpathLen, self.maxLOSpathLen)", "        self.losPathLen = v3")),
+    M("path length clipped to half the minimum", (GEO, "        self.losPathLen = np.clip(v3, self.minLOSpathLen, self.maxLOSpathLen)", "        self.losPathLen = np.clip(v3, 0.5 * self.minLOSpathLen, self.maxLOSpathLen)")),
+    M("old masked root selection brought back (unguarded Cardano branch, uncovered default)", (GEO, "        v3 = 2 * np.sqrt(-q) * np.cos((psi + 4 * np.pi) / 3)\n        self.losPathLen = np.clip(v3, self.minLOSpathLen, self.maxLOSpathLen)\n",
+       "        v1 = 2 * np.sqrt(-q) * np.cos(psi / 3)\n        v2 = 2 * np.sqrt(-q) * np.cos((psi + 2 * np.pi) / 3)\n        v3 = 2 * np.sqrt(-q) * np.cos((psi + 4 * np.pi) / 3)\n        dscr = q * q * q + r * r\n        dmsk = dscr <= 0\n        v1_msk = (v1 > 0) & (v1 >= self.minLOSpathLen) & (v1 <= self.maxLOSpathLen)\n        v2_msk = (v2 > 0) & (v2 >= self.minLOSpathLen) & (v2 <= self.maxLOSpathLen)\n        v3_msk = (v3 > 0) & (v3 >= self.minLOSpathLen) & (v3 <= self.maxLOSpathLen)\n        self.losPathLen = np.zeros_like(v1)\n        self.losPathLen[dmsk & v1_msk] = v1[dmsk & v1_msk]\n        self.losPathLen[dmsk & v2_msk] = v2[dmsk & v2_msk]\n        self.losPathLen[dmsk & v3_msk] = v3[dmsk & v3_msk]\n        s = np.cbrt(r[~dmsk] + np.sqrt(dscr[~dmsk]))\n        t = np.cbrt(r[~dmsk] - np.sqrt(dscr[~dmsk]))\n        self.losPathLen[~dmsk] = s + t\n")),
     M("latitude by arccos", (GEO, "latS_rad = np.arcsin(rsinlatS)", "latS_rad = np.arccos(rsinlatS)")),
     M("accessor with its own mask", (GEO, "        return self.thetaTrSubV[self.event_mask]", "        return self.thetaTrSubV[self.betaTrSubN < 42]")),
     M("beta left in radians", (GEO, "self.betaTrSubN = np.degrees(0.5 * np.pi - self.thetaTrSubN)", "self.betaTrSubN = 0.5 * np.pi - self.thetaTrSubN")),
-    M("gather mask differs from store mask", (GEO, "        self.losPathLen[dmsk & v3_msk] = v3[dmsk & v3_msk]", "        self.losPathLen[dmsk & v3_msk] = v3[dmsk & v2_msk]")),
     M("degrees into cos in find_lat_long", (GEO, "xPath_v = dist_along_traj * np.sin(self.thetas()) * np.cos(self.phis())",
                                             "xPath_v = dist_along_traj * np.sin(self.thetas()) * np.cos(self.valid_longS())")),
     B("rad2deg / deg2rad spellings", (GEO, "self.latS = np.degrees(latS_rad)", "self.latS = np.rad2deg(latS_rad)"),
       (GEO, "        return np.radians(self.valid_longS())", "        return np.deg2rad(self.valid_longS())")),
     B("accessor through a temporary", (GEO, "        return self.costhetaNSubV[self.event_mask]", "        kept = self.event_mask\n        return self.costhetaNSubV[kept]")),
-    B("root mask with reordered conjuncts", (GEO, "v2_msk = (v2 > 0) & (v2 >= self.minLOSpathLen) & (v2 <= self.maxLOSpathLen)",
-                                            "v2_msk = (self.minLOSpathLen <= v2) & (v2 <= self.maxLOSpathLen) & (0 < v2)")),
+    B("clip spelled with minimum / maximum", (GEO, "        self.losPathLen = np.clip(v3, self.minLOSpathLen, self.maxLOSpathLen)",
+                                             "        self.losPathLen = np.minimum(np.maximum(v3, self.minLOSpathLen), self.maxLOSpathLen)")),
 ]
 
 CORPUS["C03"] = [
@@ -328,9 +331,17 @@ CORPUS["C19"] = [
     M("boundary moved to the lower layer in one direction", (PRESS, "        i[P_b[j] >= P] = j", "        i[P_b[j] > P] = j")),
     M("table digit changed", (CONST, "        2.233611e-1,", "        2.233612e-1,")),
     M("gmr digit changed", (CONST, "std_atm_gmr = 34.163195", "std_atm_gmr = 34.163196")),
+    M("sign of the isothermal exponent in one copy", (PRESS, "    P[m & x] *= np.exp((-gmr / T_b[i][m & x]) * (h[m & x] - H_b[i][m & x]))", "    P[m & x] *= np.exp((gmr / T_b[i][m & x]) * (h[m & x] - H_b[i][m & x]))")),
+    M("log10 instead of ln in one copy", (ATM, "    H[m & x] += T_b[i][m & x] * (1.0 / gmr) * (np.log(P_b[i][m & x] / P[m & x]))", "    H[m & x] += T_b[i][m & x] * (1.0 / gmr) * (np.log10(P_b[i][m & x] / P[m & x]))")),
+    M("gradient branch loses its -1 in one copy", (PRESS, "        (P_b[i][~m & x] / P[~m & x]) ** ((1.0 / gmr) * Lm_b[i][~m & x]) - 1\n", "        (P_b[i][~m & x] / P[~m & x]) ** ((1.0 / gmr) * Lm_b[i][~m & x])\n")),
+    M("zero pressure no longer mapped to inf", (PRESS, "    z[~x] = np.inf\n    return z", "    z[~x] = 0.0\n    return z")),
+    M("both copies: boundary moved to the lower layer", (PRESS, "        i[P_b[j] >= P] = j", "        i[P_b[j] > P] = j"), (ATM, "        i[P_b[j] >= P] = j", "        i[P_b[j] > P] = j")),
+    M("both copies: last layer skipped", (PRESS, "    for j in range(1, len(H_b)):", "    for j in range(1, len(H_b) - 1):"), (ATM, "    for j in range(1, len(H_b)):", "    for j in range(1, len(H_b) - 1):")),
     M("temperature of the layer below", (PRESS, "    H[m & x] += T_b[i][m & x] * (1.0 / gmr)", "    H[m & x] += T_b[i - 1][m & x] * (1.0 / gmr)")),
     B("local renamed in one copy", (ATM, "    h = np.empty_like(z)\n    h[x] = z[x] * const.earth_radius / (z[x] + const.earth_radius)\n    h[~x] = np.inf\n\n    i = np.zeros_like(h, dtype=int)\n    for j in range(1, len(H_b)):\n        i[H_b[j] <= h] = j\n\n    P = np.full(h.shape, P_b[i])\n    m = Lm_b[i] == 0\n    P[m & x] *= np.exp((-gmr / T_b[i][m & x]) * (h[m & x] - H_b[i][m & x]))\n    P[~m & x] *= (\n        T_b[i][~m & x]\n        / (T_b[i][~m & x] + Lm_b[i][~m & x] * (h[~m & x] - H_b[i][~m & x]))\n    ) ** (gmr / Lm_b[i][~m & x])\n\n    return P\n\n\ndef us_std_atm_density",
                                     "    geo = np.empty_like(z)\n    geo[x] = z[x] * const.earth_radius / (z[x] + const.earth_radius)\n    geo[~x] = np.inf\n\n    layer = np.zeros_like(geo, dtype=int)\n    for j in range(1, len(H_b)):\n        layer[H_b[j] <= geo] = j\n\n    P = np.full(geo.shape, P_b[layer])\n    m = Lm_b[layer] == 0\n    P[m & x] *= np.exp((-gmr / T_b[layer][m & x]) * (geo[m & x] - H_b[layer][m & x]))\n    P[~m & x] *= (\n        T_b[layer][~m & x]\n        / (T_b[layer][~m & x] + Lm_b[layer][~m & x] * (geo[~m & x] - H_b[layer][~m & x]))\n    ) ** (gmr / Lm_b[layer][~m & x])\n\n    return P\n\n\ndef us_std_atm_density")),
+    B("one copy: np.power and a flipped comparison", (PRESS, "        i[H_b[j] <= h] = j", "        i[h >= H_b[j]] = j"), (PRESS, "        (P_b[i][~m & x] / P[~m & x]) ** ((1.0 / gmr) * Lm_b[i][~m & x]) - 1\n", "        np.power(P_b[i][~m & x] / P[~m & x], (1.0 / gmr) * Lm_b[i][~m & x]) - 1\n")),
+    B("one copy: inf pre-fill instead of the complementary store", (PRESS, "    z = np.empty_like(H)\n    z[x] = const.earth_radius * H[x] / (const.earth_radius - H[x])\n    z[~x] = np.inf\n", "    z = np.full_like(H, np.inf)\n    z[x] = const.earth_radius * H[x] / (const.earth_radius - H[x])\n")),
     B("one module imports the other's functions", (ATM, "def us_std_atm_altitude_from_pressure(P):\n    P = np.asarray(P)\n\n    i = np.zeros_like(P, dtype=int)\n    for j in range(1, len(P_b)):\n        i[P_b[j] >= P] = j\n\n    H = np.full(P.shape, H_b[i])\n    m = Lm_b[i] == 0\n    x = P > 0\n    H[m & x] += T_b[i][m & x] * (1.0 / gmr) * (np.log(P_b[i][m & x] / P[m & x]))\n    H[~m & x] += (T_b[i][~m & x] / Lm_b[i][~m & x]) * (\n        (P_b[i][~m & x] / P[~m & x]) ** ((1.0 / gmr) * Lm_b[i][~m & x]) - 1\n    )\n\n    z = np.empty_like(H)\n    z[x] = const.earth_radius * H[x] / (const.earth_radius - H[x])\n    z[~x] = np.inf\n    return z\n",
                                                    "from ..atmosphere.pressure import us_std_atm_altitude_from_pressure  # noqa: E402\n")),
 ]
